@@ -225,7 +225,7 @@ def _synth_centres(job, g, lattice=False):
     return {"atoms": atoms, "box": list(box)}
 
 
-def prepare_ligands(job, g):
+def prepare_ligands(job, g, lig_first=False):
     """-lig workload, step 1 (before coordinates are derived): 1-3 single-bead molecules LG are appended to the system.
     They will be missing from the supplied structure and named as ligands of supplied residues."""
     spec = job["spec"]
@@ -247,6 +247,11 @@ def prepare_ligands(job, g):
     spec["moltypes"].append({"name": "LG", "shape": "single", "residues": ["LGR"], "edges": [], "nrexcl": 1})
     first = sum(c for _n, c in spec["molecules"])
     n = g.randint(1, 3)
+    if lig_first:
+        # the ligand molecules are listed BEFORE their hosts in [ molecules ] (ions first, polymers after)
+        spec["molecules"].insert(0, ["LG", n])
+        job["lig_plan"] = {"first": 0, "n": n, "lig_first": True, "nhost_inst": first}
+        return True
     spec["molecules"].append(["LG", n])
     job["lig_plan"] = {"first": first, "n": n}
     return True
@@ -258,6 +263,8 @@ def finish_ligands(job, g):
     plan = job["lig_plan"]
     inst = bldgen.instances(job["spec"])
     hosts = [i for i in range(plan["first"]) if len(inst[i]["residues"]) >= 2]
+    if plan.get("lig_first"):
+        hosts = [i for i in range(plan["n"], len(inst)) if len(inst[i]["residues"]) >= 2]
     if not hosts:
         return False
     if job.get("ligand_on_cyclic_host"):
@@ -522,6 +529,15 @@ def add_coordinates(job, g, profile, force_res=None, cut_at_instance=None, cut_a
             lines.append((resid, resname, "CG") + tuple(xyz))
             supplied_centres[f"{inst}:{resid}:{resname}"] = xyz
     job["coord_text"] = write_gro_text("verif input", lines, gro["box"][:3])
+    if lines and g.random() < profile.get("p_atomno_restart", 0.0):
+        # atom-number column as in single-molecule files pasted together: the numbers start again with every residue
+        # whose number is 1 (and are otherwise arbitrary for a reader that goes by position in the file)
+        nos, k = [], 0
+        for idx, l in enumerate(lines):
+            k = 1 if (l[0] == 1 and (idx == 0 or lines[idx - 1][0] != 1)) else k + 1
+            nos.append(k)
+        job["coord_text"] = write_gro_text("verif input", lines, gro["box"][:3], atom_numbers=nos)
+        job["atom_numbers_restart"] = True
     if kind == "mol" and lines and g.random() < profile.get("p_pdb", 0.0) and all(len(l[2]) <= 4 and len(l[1]) <= 3 for l in lines):
         from oracles.final_state import write_pdb_text
         job["coord_text"] = write_pdb_text(lines, gro["box"][:3])
@@ -574,6 +590,12 @@ def add_coordinates(job, g, profile, force_res=None, cut_at_instance=None, cut_a
 def add_user_grid(job, g):
     """-grid: a file with start points (inside the box)"""
     box = job["opts"].get("box")
+    if box is None and job["opts"].get("density") is not None:
+        # the box follows from -dens: cubic, volume = total mass / density
+        from gen import topgen
+        L = (topgen.total_mass(job["spec"]) * 1.6605410 / job["opts"]["density"]) ** (1.0 / 3.0)
+        box = [L, L, L]
+        job["grid_with_density_box"] = True
     if box is None:
         return False
     n = g.choice([2, 3, 3, 4]) if g.random() < 0.3 else g.randint(30, 200)       # also files with very few points (a one-line file is read as a 1-D array and crashes polyply: not generated)
